@@ -1026,6 +1026,48 @@ theorem aggregate_invariant_under_delete {N : Type} [Calc.NumOps N] (fn : Calc.I
   refine ⟨c1', r1', c2', r2', he, ?_⟩
   rw [← aggregate_filter fn (List.map g' _), ← aggregate_filter fn (List.map g _), hv]
 
+/-- the enumeration the range theorems speak about is the one calc.go's `rangeResolver` uses (tied by
+the transcript op `cells`: `TEXTJOIN` over the real evaluator): for a normalised range `Spec.refCells`
+is `cellsOf` of its corners, and a reversed range enumerates the same cells -/
+theorem refCells_range (c1 c2 : Spec.ColEnd) (r1 r2 : Spec.RowEnd) (hc : c1.n ≤ c2.n) (hr : r1.n ≤ r2.n) :
+    Spec.refCells (.range c1 r1 c2 r2) = cellsOf c1.n r1.n c2.n r2.n ∧
+    Spec.refCells (.range c2 r2 c1 r1) = cellsOf c1.n r1.n c2.n r2.n := by
+  simp [Spec.refCells, Nat.min_eq_left hc, Nat.min_eq_left hr, Nat.max_eq_right hc, Nat.max_eq_right hr,
+    Nat.min_eq_right hc, Nat.min_eq_right hr, Nat.max_eq_left hc, Nat.max_eq_left hr]
+
+/-- **impl_aggregate_invariant_under_insert** — `aggregate_invariant_under_insert` for the
+transcription of calc.go's own aggregates (`Calc.Impl.aggregate`, the code C08 ties to the real
+SUM/AVERAGE/COUNT/COUNTA/MAX/MIN/PRODUCT): they skip empty cells, SUM under `x + 0 = x`. -/
+theorem impl_aggregate_invariant_under_insert {N : Type} [Calc.NumOps N] (fn : Calc.Impl.AggFn)
+    (hz : fn = .sum → ∀ s : N, Calc.NumOps.add s Calc.NumOps.zero = s)
+    (dir : Dir) (num n : Nat) (c1 c2 : Spec.ColEnd) (r1 r2 : Spec.RowEnd)
+    (hc : c1.n ≤ c2.n) (hr : r1.n ≤ r2.n) (g g' : Nat × Nat → Calc.Impl.CellArg N)
+    (hg : ∀ p p', Spec.shiftPos ⟨dir, num, n⟩ p = some p' → g' p' = g p)
+    (hb : ∀ p', (∀ p, Spec.shiftPos ⟨dir, num, n⟩ p ≠ some p') → g' p' = .empty) :
+    ∃ c1' r1' c2' r2', Spec.shiftRef false ⟨dir, num, n⟩ (.range c1 r1 c2 r2) = some (.range c1' r1' c2' r2') ∧
+      Calc.Impl.aggregate fn ((cellsOf c1'.n r1'.n c2'.n r2'.n).map g') =
+        Calc.Impl.aggregate fn ((cellsOf c1.n r1.n c2.n r2.n).map g) := by
+  obtain ⟨c1', r1', c2', r2', hs, hv⟩ := range_values_insert nonEmptyB dir num n c1 c2 r1 r2 hc hr g g' hg
+    (fun p' hp => by rw [hb p' hp]; rfl)
+  refine ⟨c1', r1', c2', r2', hs, ?_⟩
+  rw [← impl_aggregate_filter fn (List.map g' _) hz, ← impl_aggregate_filter fn (List.map g _) hz, hv]
+
+/-- **impl_aggregate_invariant_under_delete** -/
+theorem impl_aggregate_invariant_under_delete {N : Type} [Calc.NumOps N] (fn : Calc.Impl.AggFn)
+    (hz : fn = .sum → ∀ s : N, Calc.NumOps.add s Calc.NumOps.zero = s)
+    (dir : Dir) (num n : Nat) (c1 c2 : Spec.ColEnd) (r1 r2 : Spec.RowEnd)
+    (hc : c1.n ≤ c2.n) (hr : r1.n ≤ r2.n) (g g' : Nat × Nat → Calc.Impl.CellArg N) (r' : Spec.Ref)
+    (hs : Spec.shiftRef false ⟨dir, num, -(n : Int)⟩ (.range c1 r1 c2 r2) = some r')
+    (hg : ∀ p p', Spec.shiftPos ⟨dir, num, -(n : Int)⟩ p = some p' → g' p' = g p)
+    (hd : ∀ p, Spec.shiftPos ⟨dir, num, -(n : Int)⟩ p = none → g p = .empty) :
+    ∃ c1' r1' c2' r2', r' = .range c1' r1' c2' r2' ∧
+      Calc.Impl.aggregate fn ((cellsOf c1'.n r1'.n c2'.n r2'.n).map g') =
+        Calc.Impl.aggregate fn ((cellsOf c1.n r1.n c2.n r2.n).map g) := by
+  obtain ⟨c1', r1', c2', r2', he, hv⟩ := range_values_delete nonEmptyB dir num n c1 c2 r1 r2 hc hr g g' r' hs hg
+    (fun p hp => by rw [hd p hp]; rfl)
+  refine ⟨c1', r1', c2', r2', he, ?_⟩
+  rw [← impl_aggregate_filter fn (List.map g' _) hz, ← impl_aggregate_filter fn (List.map g _) hz, hv]
+
 /-! ## Where the current code does not satisfy the full statement -/
 
 /-- **array_constant_verbatim** (repaired in the repository; was `finding_array_constant_rewritten`) —
